@@ -22,6 +22,7 @@ import (
 	"strconv"
 	"strings"
 	"sync"
+	"sync/atomic"
 	"time"
 
 	"go.opentelemetry.io/otel/codes"
@@ -49,9 +50,14 @@ type Cfg struct {
 	Versioning bool
 	NoRoute    bool
 	Root       int // 0: GET "/" in the main tree; 1: GET "" in the main tree (pattern "" -> _unmatched); 2: GET "" in version v1 only
+	PathVer    bool `json:",omitempty"` // with Versioning: path detection "/api/v{version}/" instead of the header
 }
 
-func (c Cfg) key() string { return fmt.Sprintf("%v%v%v%v%d", c.Obs, c.Compiled, c.Versioning, c.NoRoute, c.Root) }
+func (c Cfg) key() string {
+	return fmt.Sprintf("%v%v%v%v%d%v", c.Obs, c.Compiled, c.Versioning, c.NoRoute, c.Root, c.PathVer)
+}
+
+const pathVerPrefix = "/api/v"
 
 type routeDef struct {
 	method, pattern, ver string
@@ -209,21 +215,37 @@ type Prog struct {
 	Mode   string // E Q O T B X
 	Status int
 	Size   int
+	Cancel bool `json:",omitempty"` // the request context is cancelled while the handler runs (before it writes)
 }
 
-func (p Prog) header() string { return fmt.Sprintf("%s,%d,%d", p.Mode, p.Status, p.Size) }
+func (p Prog) header() string {
+	c := 0
+	if p.Cancel {
+		c = 1
+	}
+	return fmt.Sprintf("%s,%d,%d,%d", p.Mode, p.Status, p.Size, c)
+}
 
 func parseProg(s string) Prog {
 	f := strings.Split(s, ",")
-	if len(f) != 3 {
+	if len(f) != 4 {
 		return Prog{Mode: "Q"}
 	}
 	st, _ := strconv.Atoi(f[1])
 	n, _ := strconv.Atoi(f[2])
-	return Prog{f[0], st, n}
+	return Prog{Mode: f[0], Status: st, Size: n, Cancel: f[3] == "1"}
 }
 
+// cancel functions of the requests whose context the handler cancels, by X-Cancel-Id
+var (
+	cancels      sync.Map
+	cancelID     atomic.Int64
+	aborts       sync.Map // X-Abort-Id -> chan struct{} closed when the handler is entered
+	abortNotSeen atomic.Int64
+)
+
 type Req struct {
+	Abort  bool `json:",omitempty"` // kind AW: the client aborts the request while the handler runs
 	Method string
 	Path   string
 	Ver    string // X-API-Version header ("" = absent)
@@ -276,6 +298,21 @@ var body = []byte(strings.Repeat("x", 4096))
 func runProg(c *router.Context, hid int) {
 	p := parseProg(c.Request.Header.Get("X-Prog"))
 	logf(logEv{kind: "H", hid: hid, pattern: c.RoutePattern(), version: c.Version()})
+	if id := c.Request.Header.Get("X-Abort-Id"); id != "" {
+		if ch, ok := aborts.LoadAndDelete(id); ok {
+			close(ch.(chan struct{})) // tell the client side that the handler is running
+			select {
+			case <-c.Request.Context().Done(): // net/http noticed the closed connection
+			case <-time.After(3 * time.Second):
+				abortNotSeen.Add(1)
+			}
+		}
+	}
+	if p.Cancel {
+		if f, ok := cancels.LoadAndDelete(c.Request.Header.Get("X-Cancel-Id")); ok {
+			f.(context.CancelFunc)() // the client went away / the server cancels: mid-flight
+		}
+	}
 	switch p.Mode {
 	case "E", "B":
 		c.Response.WriteHeader(p.Status)
@@ -352,8 +389,12 @@ func register(r *router.Router, c Cfg) {
 func routerOpts(c Cfg) []router.Option {
 	opts := []router.Option{router.WithRouteCompilation(c.Compiled)}
 	if c.Versioning {
+		det := version.WithHeaderDetection("X-API-Version")
+		if c.PathVer {
+			det = version.WithPathDetection(pathVerPrefix + "{version}/")
+		}
 		opts = append(opts, router.WithVersioning(
-			version.WithHeaderDetection("X-API-Version"),
+			det,
 			version.WithDefault(defaultVersion),
 			version.WithValidVersions(validVersions...),
 			version.WithSunsetEnforcement(),
@@ -446,13 +487,29 @@ type facts struct {
 	detected, path                    string
 }
 
-func detect(q Req) string {
-	for _, v := range validVersions {
-		if q.Ver == v {
-			return v
+// detect returns the version the engine detects and the path the version tree is searched with.
+func detect(c Cfg, q Req) (string, string) {
+	cand, routing := q.Ver, q.Path
+	if c.PathVer {
+		cand = ""
+		if rest, ok := strings.CutPrefix(q.Path, pathVerPrefix); ok && rest != "" {
+			seg, tail, hasSlash := strings.Cut(rest, "/")
+			if seg != "" {
+				cand = "v" + seg
+				if hasSlash {
+					routing = "/" + tail
+				} else {
+					routing = "/"
+				}
+			}
 		}
 	}
-	return defaultVersion
+	for _, v := range validVersions {
+		if cand == v {
+			return v, routing
+		}
+	}
+	return defaultVersion, routing
 }
 
 func predict(c Cfg, q Req) facts {
@@ -478,7 +535,8 @@ func predict(c Cfg, q Req) facts {
 	f.tree = hasTree(c, q.Method, "")
 	f.treeCompiled = c.Compiled && f.tree
 	if c.Versioning {
-		f.detected = detect(q)
+		var routing string
+		f.detected, routing = detect(c, q)
 		f.version = f.detected
 		tv := ""
 		if hasTree(c, q.Method, f.version) {
@@ -488,8 +546,8 @@ func predict(c Cfg, q Req) facts {
 		}
 		f.vcTree = tv != ""
 		if f.vcTree {
-			if vd, vok := matchTable(c, q.Method, q.Path, tv); vok {
-				if vd.kind == "static" && q.Path != "" {
+			if vd, vok := matchTable(c, q.Method, routing, tv); vok {
+				if vd.kind == "static" && routing != "" {
 					f.vCache = route{true, vd.hid, vd.pattern}
 				} else {
 					f.vRoute = route{true, vd.hid, vd.pattern}
@@ -552,6 +610,9 @@ var wireClient = &http.Client{CheckRedirect: func(*http.Request, []*http.Request
 
 // wireOK: requests a real client can send unchanged and whose body net/http does not suppress
 func wireOK(q Req) bool {
+	if q.Prog.Cancel {
+		return false
+	}
 	switch q.Method {
 	case "GET", "POST", "PUT", "DELETE", "PATCH":
 	default:
@@ -582,6 +643,13 @@ func newRequest(q Req) *http.Request {
 	req.Header.Set("X-Prog", q.Prog.header())
 	if q.Ver != "" {
 		req.Header.Set("X-API-Version", q.Ver)
+	}
+	if q.Prog.Cancel {
+		ctx, cancel := context.WithCancel(req.Context())
+		id := fmt.Sprint(cancelID.Add(1))
+		cancels.Store(id, cancel)
+		req.Header.Set("X-Cancel-Id", id)
+		req = req.WithContext(ctx)
 	}
 	return req
 }
@@ -869,6 +937,107 @@ func runA(id string, cs Case) string {
 	return l.String() + hx.Comment(cs)
 }
 
+// ---------------------------------------------------------------- kind AW: real server, real app recorder, clients that abort
+
+func runAW(id string, cs Case) string {
+	e, err := newApp(cs.C)
+	if err != nil {
+		fmt.Fprintln(os.Stderr, "app.New:", err)
+		os.Exit(1)
+	}
+	var in, out atomic.Int64
+	srv := httptest.NewServer(http.HandlerFunc(func(w http.ResponseWriter, r *http.Request) {
+		in.Add(1)
+		defer out.Add(1)
+		e.a.Router().ServeHTTP(w, r)
+	}))
+	defer srv.Close()
+	l := &lineB{hx.NewLine(id)}
+	l.Tok("AW").Nat(len(cs.H))
+	live := 0
+	for _, q := range cs.H {
+		f := predict(cs.C, q)
+		f.obs = true
+		f.live = !strings.HasPrefix(q.Path, exclPrefix)
+		if f.live {
+			live++
+		}
+		l.facts(f)
+		l.prog(q.Prog, 0)
+		l.Str(q.Method)
+		req, err := http.NewRequest(q.Method, srv.URL+q.Path, nil)
+		if err != nil {
+			fmt.Fprintln(os.Stderr, "wire request:", err)
+			os.Exit(1)
+		}
+		req.Header.Set("X-Prog", q.Prog.header())
+		if q.Ver != "" {
+			req.Header.Set("X-API-Version", q.Ver)
+		}
+		if !q.Abort {
+			if resp, err := wireClient.Do(req); err == nil {
+				_, _ = io.Copy(io.Discard, resp.Body)
+				_ = resp.Body.Close()
+			}
+			continue
+		}
+		ctx, cancel := context.WithCancel(context.Background())
+		entered := make(chan struct{})
+		aid := fmt.Sprint(cancelID.Add(1))
+		aborts.Store(aid, entered)
+		req.Header.Set("X-Abort-Id", aid)
+		done := make(chan struct{})
+		go func() {
+			defer close(done)
+			// a fresh transport: cancelling closes this request's own connection
+			cl := &http.Client{Transport: &http.Transport{DisableKeepAlives: true}, CheckRedirect: wireClient.CheckRedirect}
+			if resp, err := cl.Do(req.WithContext(ctx)); err == nil {
+				_, _ = io.Copy(io.Discard, resp.Body)
+				_ = resp.Body.Close()
+			}
+		}()
+		select {
+		case <-entered:
+		case <-done: // no probe handler on this path (404/405/410): the request simply completed
+		case <-time.After(3 * time.Second):
+		}
+		cancel()
+		<-done
+		aborts.Delete(aid)
+	}
+	// quiescence: every ServeHTTP call has returned
+	for t := 0; t < 500 && out.Load() != in.Load(); t++ {
+		time.Sleep(10 * time.Millisecond)
+	}
+	l.Strs(patterns(cs.C))
+	l.Sep()
+	if out.Load() != in.Load() {
+		l.Tok("T")
+		return l.String() + hx.Comment(cs)
+	}
+	started, ended := e.spans.Started(), e.spans.Ended()
+	var rm metricdata.ResourceMetrics
+	_ = e.reader.Collect(context.Background(), &rm)
+	var active, total int64
+	for _, sm := range rm.ScopeMetrics {
+		for _, m := range sm.Metrics {
+			if d, ok := m.Data.(metricdata.Sum[int64]); ok {
+				for _, dp := range d.DataPoints {
+					switch m.Name {
+					case "http_requests_active":
+						active += dp.Value
+					case "http_requests_total":
+						total += dp.Value
+					}
+				}
+			}
+		}
+	}
+	l.Nat(len(started)).Nat(len(ended)).I64(active).I64(total).Nat(int(in.Load()))
+	_ = live
+	return l.String() + hx.Comment(cs)
+}
+
 // ---------------------------------------------------------------- generator
 
 var vals = []string{"1", "42", "abc", "a-b", "007", "x_y", "Z9"}
@@ -879,22 +1048,22 @@ func genProg(r *hx.Rand, chain string) Prog {
 	switch chain {
 	case "abort":
 		if r.Chance(1, 2) {
-			return Prog{"B", hx.Pick(r, []int{401, 403, 429}), n}
+			return Prog{Mode: "B", Status: hx.Pick(r, []int{401, 403, 429}), Size: n}
 		}
 	case "panic":
 		if r.Chance(2, 3) {
-			return Prog{"X", 0, 0}
+			return Prog{Mode: "X", Status: 0, Size: 0}
 		}
 	}
 	switch r.Intn(8) {
 	case 0:
-		return Prog{"Q", 0, 0}
+		return Prog{Mode: "Q", Status: 0, Size: 0}
 	case 1:
-		return Prog{"O", 0, n}
+		return Prog{Mode: "O", Status: 0, Size: n}
 	case 2:
-		return Prog{"T", st, n}
+		return Prog{Mode: "T", Status: st, Size: n}
 	}
-	return Prog{"E", st, n}
+	return Prog{Mode: "E", Status: st, Size: n}
 }
 
 type classGen struct {
@@ -941,6 +1110,12 @@ func classes() []classGen {
 		{"odd-path", func(r *hx.Rand) Req {
 			return q("odd-path", hx.Pick(r, []string{"GET", "GET", "POST", "PUT"}), hx.Pick(r, []string{"", "/zz/", "/zz//y", "/%6eope", "/zz/" + strings.Repeat("y", 300), "/s/A", "/S/a"}), verHdr(r))
 		}},
+		// path-based versioning: registered, unregistered and sunset version segments (served by the default tree
+		// when unregistered); with header detection these are plain misses
+		{"path-ver", func(r *hx.Rand) Req {
+			seg := hx.Pick(r, []string{"1", "2", "0", "17", "17-beta", "3", "99", "x", "1.0"})
+			return q("path-ver", hx.Pick(r, []string{"GET", "GET", "GET", "POST"}), pathVerPrefix+seg+hx.Pick(r, []string{"/vs", "/vd/" + v(r), "/vmiss", "/v2only", "/vp", ""}), verHdr(r))
+		}},
 		{"ver-static", func(r *hx.Rand) Req { return q("ver-static", "GET", hx.Pick(r, []string{"/vs", "/v2only"}), verHdr(r)) }},
 		{"ver-param", func(r *hx.Rand) Req { return q("ver-param", "GET", "/vd/"+v(r), verHdr(r)) }},
 		{"ver-post", func(r *hx.Rand) Req { return q("ver-post", "POST", hx.Pick(r, []string{"/vp", "/vs"}), verHdr(r)) }},
@@ -959,13 +1134,16 @@ func chainOf(q Req, c Cfg) string {
 }
 
 func genCfg(r *hx.Rand) Cfg {
-	return Cfg{Obs: r.Chance(7, 8), Compiled: r.Chance(1, 2), Versioning: r.Chance(2, 3), NoRoute: r.Chance(1, 2), Root: hx.Pick(r, []int{0, 0, 1, 2})}
+	c := Cfg{Obs: r.Chance(7, 8), Compiled: r.Chance(1, 2), Versioning: r.Chance(2, 3), NoRoute: r.Chance(1, 2), Root: hx.Pick(r, []int{0, 0, 1, 2})}
+	c.PathVer = c.Versioning && r.Chance(1, 3)
+	return c
 }
 
 func genReq(r *hx.Rand, c Cfg) Req {
 	cl := hx.Pick(r, classes())
 	q := cl.gen(r)
 	q.Prog = genProg(r, chainOf(q, c))
+	q.Prog.Cancel = r.Chance(1, 6)
 	return q
 }
 
@@ -1014,6 +1192,15 @@ func count(st *hx.Stats, c Cfg, q Req) bool {
 	st.Count("prog:" + q.Prog.Mode)
 	st.Count(fmt.Sprintf("cfg:obs=%v,compiled=%v,versioning=%v,noRoute=%v", c.Obs, c.Compiled, c.Versioning, c.NoRoute))
 	st.Count(fmt.Sprintf("cfg:root=%d", c.Root))
+	if c.PathVer {
+		st.Count("cfg:path-versioning")
+		if strings.HasPrefix(q.Path, pathVerPrefix) && f.version == defaultVersion && !strings.HasPrefix(q.Path, pathVerPrefix+"1/") && q.Path != pathVerPrefix+"1" {
+			st.Count("unregistered-version-segment-served-by-default")
+		}
+	}
+	if q.Prog.Cancel {
+		st.Count("context-cancelled-mid-flight")
+	}
 	if (f.treeRoute.ok && f.treeRoute.pattern == "") || (f.vRoute.ok && f.vRoute.pattern == "") {
 		st.Count("empty-pattern(_unmatched)")
 	}
@@ -1026,13 +1213,20 @@ func count(st *hx.Stats, c Cfg, q Req) bool {
 
 func witnesses() []Case {
 	on := Cfg{Obs: true, Versioning: true}
-	e := Prog{"E", 200, 5}
+	e := Prog{Mode: "E", Status: 200, Size: 5}
 	return []Case{
 		// K08: the three exits that skipped OnRequestEnd before commit 91ac4e5
 		{Kind: "R", C: on, Q: Req{Method: "GET", Path: "/vmiss", Ver: "v1", Prog: e, Class: "ver-miss"}},
 		{Kind: "R", C: on, Q: Req{Method: "GET", Path: "/vs", Ver: "v0", Prog: e, Class: "ver-static"}},
 		{Kind: "R", C: on, Q: Req{Method: "GET", Path: "/vd/7", Ver: "v0", Prog: e, Class: "ver-param"}},
 		{Kind: "R", C: Cfg{Obs: true, Versioning: true, Compiled: true, NoRoute: true}, Q: Req{Method: "GET", Path: "/vmiss", Prog: e, Class: "ver-miss"}},
+		{Kind: "A", C: Cfg{Obs: true}, H: []Req{
+			{Method: "GET", Path: "/s/a", Prog: Prog{Mode: "E", Status: 200, Size: 5, Cancel: true}, Class: "main-static"},
+			{Method: "GET", Path: "/d/7", Prog: Prog{Mode: "E", Status: 500, Size: 0, Cancel: true}, Class: "main-param"},
+			{Method: "GET", Path: "/nope", Prog: e, Class: "404"},
+		}},
+		{Kind: "R", C: Cfg{Obs: true, Versioning: true, PathVer: true}, Q: Req{Method: "GET", Path: "/api/v17/vd/7", Prog: e, Class: "path-ver"}},
+		{Kind: "R", C: Cfg{Obs: true, Versioning: true, PathVer: true}, Q: Req{Method: "GET", Path: "/api/v99-beta/vs", Prog: e, Class: "path-ver"}},
 		{Kind: "A", C: on, H: []Req{
 			{Method: "GET", Path: "/s/a", Prog: e, Class: "main-static"},
 			{Method: "GET", Path: "/vmiss", Ver: "v1", Prog: e, Class: "ver-miss"},
@@ -1055,9 +1249,12 @@ func run(id string, cs Case) string {
 				done <- hx.NewLine(id).Tok("X").Sep().Tok("P").String() + hx.Comment(cs)
 			}
 		}()
-		if cs.Kind == "A" {
+		switch cs.Kind {
+		case "A":
 			done <- runA(id, cs)
-		} else {
+		case "AW":
+			done <- runAW(id, cs)
+		default:
 			done <- runR(id, cs)
 		}
 	}()
@@ -1112,6 +1309,7 @@ func main() {
 		}
 		for m := 0; m < 48 && i < a.N; m++ {
 			c := Cfg{Obs: m&1 == 0, Compiled: m&2 != 0, Versioning: m&4 != 0, NoRoute: m&8 != 0, Root: m / 16}
+			c.PathVer = c.Versioning && m&8 != 0
 			for _, cl := range classes() {
 				q := cl.gen(r)
 				q.Prog = genProg(r, chainOf(q, c))
@@ -1146,6 +1344,40 @@ func main() {
 			st.Count("A-histories")
 			st.Case(fmt.Sprintf("%+v", cs), nt)
 			fmt.Fprintln(w, run(fmt.Sprintf("c08-%d-a%d", a.Seed, k), cs))
+		}
+		nW := 3
+		if a.Tier == "thorough" {
+			nW = 12
+		}
+		if a.N < 100 {
+			nW = 0
+		}
+		for k := 0; k < nW; k++ {
+			c := genCfg(r)
+			c.Obs = true
+			n := r.Range(4, 10)
+			h := make([]Req, n)
+			for j := range h {
+				for {
+					h[j] = genReq(r, c)
+					h[j].Prog.Cancel = false
+					if wireOK(h[j]) && h[j].Prog.Mode != "X" {
+						break
+					}
+				}
+				h[j].Abort = r.Chance(1, 3)
+				count(st, c, h[j])
+				if h[j].Abort {
+					st.Count("client-aborts-mid-flight(real server)")
+				}
+			}
+			cs := Case{Kind: "AW", C: c, H: h}
+			st.Count("AW-histories")
+			st.Case(fmt.Sprintf("%+v", cs), true)
+			fmt.Fprintln(w, run(fmt.Sprintf("c08-%d-w%d", a.Seed, k), cs))
+		}
+		if n := abortNotSeen.Load(); n > 0 {
+			st.Counters["abort-not-seen-by-server-within-3s(discarded)"] = int(n)
 		}
 		st.Emit(w)
 	}
